@@ -104,6 +104,7 @@ class SeqCountProvider(ProvidesSeqCount):
         self._max_bit_width = width
 
     def get_and_increment(self) -> int:
-        curr_count = self.count
-        self.count = (self.count + 1) % pow(2, self._max_bit_width)
+        modulus = pow(2, self._max_bit_width)
+        curr_count = self.count % modulus
+        self.count = (curr_count + 1) % modulus
         return curr_count
